@@ -75,6 +75,60 @@ impl vstd::std_specs::convert::FromSpecImpl<crypto::PublicKey> for Did {
 pub broadcast axiom fn did_eq_structural(a: Did, b: Did)
     ensures #[trigger] vstd::std_specs::cmp::PartialEqSpec::eq_spec(&a, &b) == (a == b);
 
+/// ASSUMED (core): `<[T]>::contains(x)` is `iter().any(|e| e == x)`: membership when `==` is structural
+pub assume_specification<T: PartialEq>[<[T]>::contains](s: &[T], x: &T) -> (r: bool)
+    ensures (forall|a: T, b: T| #[trigger] vstd::std_specs::cmp::PartialEqSpec::eq_spec(&a, &b) == (a == b)) ==> r == s@.contains(*x);
+/// proved helper lemmas about Seq::push (broadcast where a lifted closure needs them)
+pub mod vx_seq {
+    use vstd::prelude::*;
+    pub broadcast proof fn lemma_push_contains<T>(s: Seq<T>, x: T, d: T)
+        ensures #[trigger] s.push(x).contains(d) <==> (s.contains(d) || d == x)
+    {
+        if s.contains(d) { let i = choose|i: int| 0 <= i < s.len() && s[i] == d; assert(s.push(x)[i] == d); }
+        if d == x { assert(s.push(x)[s.len() as int] == d); }
+    }
+    pub broadcast proof fn lemma_push_no_dup<T>(s: Seq<T>, x: T)
+        requires s.no_duplicates(), !s.contains(x)
+        ensures #[trigger] s.push(x).no_duplicates()
+    {}
+}
+/// std's `Iterator::try_fold` default body (`let mut accum = init; while let Some(x) = self.next() { accum = f(accum, x)?; }
+/// try { accum }`), transcribed for `vec::IntoIter<Did>` with the lifted closure as `f`; verified, not assumed.
+pub fn vx_try_fold_dids(v: Vec<Did>, init: Vec<Did>) -> (r: Result<Vec<Did>, DelegatesError>)
+    requires init@.len() == 0
+    ensures
+        r is Ok ==> r->Ok_0@.no_duplicates() && r->Ok_0@.len() <= 255,
+        r is Ok ==> forall|d: Did| r->Ok_0@.contains(d) <==> v@.contains(d),
+{
+    let mut accum = init;
+    let mut i: usize = 0;
+    while i < v.len()
+        invariant
+            i <= v.len(), accum@.no_duplicates(), accum@.len() <= 255,
+            forall|d: Did| accum@.contains(d) <==> v@.subrange(0, i as int).contains(d),
+        decreases v.len() - i
+    {
+        let x = v[i];
+        proof {
+            broadcast use vx_seq::lemma_push_contains;
+            assert(v@.subrange(0, i as int + 1) =~= v@.subrange(0, i as int).push(x));
+        }
+        let ghost pre = v@.subrange(0, i as int);
+        let ghost acc0 = accum@;
+        match Delegates::vx_new_step(accum, x) { Ok(a) => { accum = a; } Err(e) => { return Err(e); } }
+        i += 1;
+        proof {
+            assert(v@.subrange(0, i as int) == pre.push(x));
+            assert forall|d: Did| accum@.contains(d) <==> v@.subrange(0, i as int).contains(d) by {
+                vx_seq::lemma_push_contains(pre, x, d);
+                assert(acc0.contains(d) <==> pre.contains(d));
+            }
+        }
+    }
+    proof { assert(v@.subrange(0, v@.len() as int) =~= v@); }
+    Ok(accum)
+}
+
 /// ASSUMED (rustc derive(Ord) on Did(PublicKey([u8;32]))): the derived ordering is a lawful total order.
 #[verifier::external_body]
 pub proof fn did_ord_lawful() ensures vstd::laws_cmp::obeys_cmp_spec::<Did>() {}
@@ -95,9 +149,21 @@ pub proof fn did_ord_lawful() ensures vstd::laws_cmp::obeys_cmp_spec::<Did>() {}
 //@      /// validity of a delegate set, from the statement: 1..=255 distinct delegates
 //@      pub open spec fn wf(self) -> bool { 1 <= self.seq().len() <= 255 && self.seq().no_duplicates() }
 //@    fn new
-//@      attr #[verifier::external_body] // try_fold closure: outside Verus; contract checked by Kani (bounded) -- kx/identity
 //@      ret r
 //@      sig impl IntoIterator<Item = Did> => Vec<Did>
+//@      # the try_fold closure is lifted (body verbatim) to `vx_new_step` so that it can carry a contract; the fold itself is
+//@      # std's default `try_fold` body transcribed in `vx_try_fold_dids` below
+//@      lift_closure vx_new_step \.try_fold\(Vec::<Did>::new\(\),
+//@        sig (mut dids: Vec<Did>, did: Did) -> (r: Result<Vec<Did>, DelegatesError>)
+//@        head
+//@          broadcast use did_eq_structural, vx_seq::lemma_push_contains, vx_seq::lemma_push_no_dup;
+//@        requires
+//@          dids@.no_duplicates() && dids@.len() <= 255
+//@        ensures
+//@          r is Ok ==> r->Ok_0@.no_duplicates() && r->Ok_0@.len() <= 255 && r->Ok_0@.len() <= dids@.len() + 1
+//@          r is Ok ==> forall|d: Did| r->Ok_0@.contains(d) <==> (dids@.contains(d) || d == did)
+//@      body_sub (?s)delegates\s*\.into_iter\(\)\s*\.try_fold\(Vec::<Did>::new\(\), Self::vx_new_step => vx_try_fold_dids(delegates, Vec::<Did>::new()
+//@      body_sub \.map\(Self\) => .map(|e| -> (o: Delegates) ensures o == Delegates(e) { Delegates(e) })
 //@      ensures
 //@        r is Ok ==> r->Ok_0.wf()
 //@        r is Ok ==> forall|d: Did| r->Ok_0.seq().contains(d) <==> delegates@.contains(d)
